@@ -12,3 +12,7 @@ import Ypv.Props.C06
 #print axioms Ypv.C06.diff_clean_iff_dataEq_partial
 #print axioms Ypv.C06.diff_complete_strict
 #print axioms Ypv.C06.diff_complete_partial
+#print axioms Ypv.C06.msEq_iff_balanced
+#print axioms Ypv.C06.msEq_of_perm
+#print axioms Ypv.C06.key_clean_iff_msEq
+#print axioms Ypv.C06.diff_clean_iff_dataEq_key_root
